@@ -289,6 +289,70 @@ static std::string scenarioPromise(const std::vector<std::string>& w)
     return out;
 }
 
+// ---------------------------------------------------------------------------------------------------
+// C12 with any number of attaching threads: thread 0 settles P, thread j+1 attaches its own continuation h_j
+// pn <n> <outcome res|rej> <schedule over 0..n>
+static std::string scenarioPromiseN(const std::vector<std::string>& w)
+{
+    if (w.size() != 4) return "bad-op";
+    int n = atoi(w[1].c_str()); const std::string outcome = w[2];
+    if (n < 1 || n > 6 || (outcome != "res" && outcome != "rej")) return "bad-op";
+    auto sched = parseSched(w[3]);
+
+    Async::Resolver resolver(nullptr); Async::Rejection rejection(nullptr);
+    Async::Promise<int> P([&](Async::Resolver& r, Async::Rejection& j) { resolver = std::move(r); rejection = std::move(j); });
+    std::vector<std::string> order;        // only one thread is runnable at a time
+    std::vector<std::unique_ptr<Async::Promise<void>>> E(static_cast<size_t>(n));
+    std::string excA; std::vector<std::string> excB(static_cast<size_t>(n));
+    coop::Sched S; coop::install(&S);
+    S.spawn([&] {
+        try { if (outcome == "res") resolver(7); else rejection(Exc { 9 }); }
+        catch (const std::exception& e) { excA = e.what(); }
+    });
+    for (int j = 0; j < n; ++j) {
+        S.spawn([&, j] {
+            try {
+                E[static_cast<size_t>(j)].reset(new Async::Promise<void>(P.then(
+                    [&order, j, &outcome](int v) { order.push_back(std::to_string(j) + (outcome == "res" && v == 7 ? "" : "!")); },
+                    [&order, j, &outcome](std::exception_ptr e) {
+                        int code = -1;
+                        try { if (e) std::rethrow_exception(e); } catch (const Exc& x) { code = x.code; } catch (...) { code = -3; }
+                        order.push_back(std::to_string(j) + (outcome == "rej" && code == 9 ? "" : "!"));
+                    })));
+            } catch (const std::exception& e) { excB[static_cast<size_t>(j)] = e.what(); }
+        });
+    }
+    for (int t : sched) { if (t >= 0 && t <= n) S.runOne(t); }
+    bool dead = false; int stuck = 0;
+    for (int guard = 0; guard < 100000; ++guard) {
+        bool all = true; for (int t = 0; t <= n; ++t) all = all && S.finished(t);
+        if (all) break;
+        bool onlyRetries = true;
+        for (int t = 0; t <= n; ++t) {
+            if (S.finished(t)) continue;
+            std::string a = S.runOne(t);
+            onlyRetries = onlyRetries && (a == "blocked" || a == "done");
+        }
+        all = true; for (int t = 0; t <= n; ++t) all = all && S.finished(t);
+        if (onlyRetries && !all) { if (++stuck > 50) { dead = true; break; } } else stuck = 0;
+    }
+    coop::install(nullptr);
+    if (dead) { std::_Exit(98); }
+    S.joinAll();
+    std::string out = "order=";
+    for (size_t i = 0; i < order.size(); ++i) { if (i) out += ","; out += order[i]; }
+    if (order.empty()) out += "-";
+    std::string ex = excA.empty() ? "-" : "A";
+    for (auto& b : excB) if (!b.empty()) ex = ex == "-" ? "B" : ex + "B";
+    out += " exc=" + ex + " trace=";
+    for (int t = 0; t <= n; ++t) {
+        if (t) out += "|";
+        auto& labs = S.threads[static_cast<size_t>(t)]->labels;
+        for (size_t i = 0; i < labs.size(); ++i) { if (i) out += ","; out += labs[i]; }
+    }
+    return out;
+}
+
 int main()
 {
     std::map<std::string, Op> ops;
@@ -296,5 +360,6 @@ int main()
     ops["qsys"] = scenarioQueueSys;
     ops["qfd"] = scenarioQueueFd0;
     ops["p"] = scenarioPromise;
+    ops["pn"] = scenarioPromiseN;
     return runLoop(ops, 20);
 }
